@@ -158,9 +158,13 @@ impl ExchangeId {
 
             match select3(&mut recv, &mut session_removed, &mut timeout).await {
                 Either3::First(mut packet) => {
-                    packet.clear_on_drop(true);
-
+                    // Check first, and only then take ownership of the packet: when our
+                    // session is gone, the lock above is granted regardless of whose packet
+                    // sits in the RX buffer (so that we wake up and bail out), and that
+                    // packet must then be left in place for the exchange it belongs to.
                     self.check_no_pending_retrans(matter)?;
+
+                    packet.clear_on_drop(true);
 
                     break Ok(RxMessage(packet));
                 }
